@@ -23,7 +23,7 @@ ASSUMPTIONS = [
     "per-run processing uses the single-thread processor inside each worker (the mailbox threads are covered by C05/C06)",
     "bytecode-level races inside one source line are not modelled",
 ]
-BOUNDS = {"quick": "2 runs (3 for one cell), 2 workers, preemption bound 1 for 6 cells (multi-target, failing run, make), bound 0 for the rest", "thorough": "2-3 runs, preemption bound 2 for 2 runs; all-lines confirmation at bound 1"}
+BOUNDS = {"quick": "2 runs (3 for one cell), 2 workers, preemption bound 1 for 4 cells (multi-target cold cache, failing run, ignored failure with warm cache, make), bound 0 for the rest", "thorough": "2-3 runs, preemption bound 2 for 2 runs; all-lines confirmation at bound 1"}
 
 SHARED = re.compile(r"_plugin_class_registry|_fixed_plugin_cache|_fixed_level_cache|_run_defaults_cache|cached_plugins")
 _LINES = {}
@@ -215,7 +215,7 @@ def plan(tier, seed):
         else:
             # quick: preemption bound 1 for the cells with the temporary merge plugin, a failing run and make;
             # bound 0 (every choice at blocking points, no preemption) for the others
-            bound = 1 if i in (4, 5, 7, 8, 10, 11) else 0
+            bound = 1 if i in (4, 8, 10, 11) else 0
         jobs.append((i, bound, False, tier))
     if tier == "thorough":
         jobs += [(i, 1, True, tier) for i in (0, 4, 8)]
